@@ -4,7 +4,7 @@ W=${W:-/tmp/w1}; B=${3:-60000}
 cd $W
 for prop in $1; do
   for seed in $2; do
-    ( GOLOG_LOG_LEVEL=fatal VERIF_COLLECT=1 VERIF_ANYPROP=1 VERIF_PROP=$prop VERIF_SEED=$seed VERIF_BUDGET_MS=$B VERIF_MIN_MS=$B VERIF_MAXRUNS=${MAXRUNS:-100000} VERIF_KNOWN=/verif/known_findings.json VERIF_REPLAY_DIR=$W/replays ./sim.test -test.run '^TestWorker$' 2>&1 | grep "^COLLECT\|harness_error\":\"[^\"]" | cut -c1-400 ) &
+    ( GOLOG_LOG_LEVEL=fatal VERIF_COLLECT=1 VERIF_ANYPROP=${ANY-1} VERIF_PROP=$prop VERIF_SEED=$seed VERIF_BUDGET_MS=$B VERIF_MIN_MS=$B VERIF_MAXRUNS=${MAXRUNS:-100000} VERIF_KNOWN=/verif/known_findings.json VERIF_REPLAY_DIR=$W/replays ./sim.test -test.run '^TestWorker$' 2>&1 | grep "^COLLECT\|harness_error\":\"[^\"]" | cut -c1-400 ) &
   done
   wait
 done 2>/dev/null | sort | awk '{k=$2; if(!(k in s)){s[k]=1; print}}'
